@@ -368,7 +368,93 @@ impl Property for C12 {
                 let extra = json!({"damages": damage});
                 let state = match recover(&image, &crash_dir, case.policy) {
                     Ok(mut recovered) => {
-                        recovered.driver.close()?;
+                        // Second stage (a frame-header field of a multi-frame batch damaged; always for the type byte, one
+                        // in four otherwise): the history goes on, on the damaged log — a batch of the same sizes (other
+                        // bytes) is appended to the same queue — and crashes at every point inside that call; each image
+                        // is recovered: the old batch and the new one must each be all-or-nothing (frames of the damaged
+                        // batch still lying behind the write cursor must never complete the head of the new one).
+                        let hit_batch = match (damage_list.len(), frame_op) {
+                            (1, Some(op)) if multi_frame_batch_ops.contains(&op) => batches.iter().find(|batch| batch.op == op),
+                            _ => None,
+                        };
+                        let second_stage = hit_batch.is_some()
+                            && field != "payload"
+                            && (field == "type" || mix(history_hash, hash64(&damage_list)) % 4 == 0);
+                        if let (true, Some(batch)) = (second_stage, hit_batch) {
+                            let new_payloads: Vec<Bytes> = batch
+                                .payloads
+                                .iter()
+                                .enumerate()
+                                .map(|(idx, payload)| Bytes::from(crate::util::fill(0x5EC0 ^ idx as u64, payload.len(), 0)))
+                                .collect();
+                            let appended = {
+                                let log = recovered.driver.log.as_mut().unwrap();
+                                recovered.driver.tracer.begin_op(5000);
+                                let res = crate::util::guarded(|| log.append_records(&batch.queue, None, new_payloads.iter().map(|payload| &payload[..])).map(|outcome| outcome.last_position).ok().flatten());
+                                let fed = recovered.driver.tracer.feed(mrecordlog::verif_hooks::take_events());
+                                recovered.driver.tracer.end_op(5000);
+                                fed.map_err(CaseError::Engine)?;
+                                res
+                            };
+                            recovered.driver.close()?;
+                            if let Ok(Some(last)) = appended {
+                                let effects2: Vec<Effect> = recovered.driver.tracer.effects.clone();
+                                let frames2 = recovered.driver.tracer.frames.clone();
+                                let lo = effects2.iter().position(|effect| matches!(effect, Effect::OpBegin { op: 5000 }));
+                                let hi = effects2.iter().position(|effect| matches!(effect, Effect::OpEnd { op: 5000 }));
+                                if let (Some(lo), Some(hi)) = (lo, hi) {
+                                    let mut batches2: Vec<&Batch> = batches.iter().collect();
+                                    let count = new_payloads.len() as u64;
+                                    let new_batch = Batch {
+                                        op: 5000,
+                                        queue: batch.queue.clone(),
+                                        first: (last + 1).saturating_sub(count),
+                                        payloads: new_payloads.clone(),
+                                        frames: 2,
+                                        files: 1,
+                                        identifiable: new_payloads.iter().all(|payload| payload.len() >= 8),
+                                    };
+                                    batches2.push(&new_batch);
+                                    let mut reused2 = reused.clone();
+                                    reused2.insert(batch.queue.clone());
+                                    let mut selection = Selection::standard(&case.words);
+                                    selection.exhaustive_below = 0;
+                                    selection.generated_cuts = 1;
+                                    selection.range = Some((lo, hi));
+                                    let crash_dir2 = env.scratch.fresh("c12-damage-then-crash");
+                                    let described: Vec<String> = damage_list.iter().map(describe_damage).collect();
+                                    for_each_crash_point(&image, &effects2, &frames2, &selection, |ctx: &CrashCtx| -> Result<(), CaseError> {
+                                        if !ctx.class.strictly_inside_op() {
+                                            return Ok(());
+                                        }
+                                        env.evals(1);
+                                        let state2 = match recover(ctx.image, &crash_dir2, case.policy) {
+                                            Ok(mut again) => {
+                                                again.driver.close()?;
+                                                again.state
+                                            }
+                                            Err(crate::recover::RecoverError::Engine(msg)) => return Err(CaseError::Engine(msg)),
+                                            Err(_) => return Ok(()),
+                                        };
+                                        env.class("damage-then-append-then-crash");
+                                        for judged in &batches2 {
+                                            if let Err(msg) = check_batches(std::slice::from_ref(*judged), &truncs, &reused2, &state2) {
+                                                return Err(exec.failure(
+                                                    format!("in-place damage ({field}) {described:?}, open, then a batch of the same sizes appended to {:?} and a crash inside that call at effect {} byte {} ({}): {msg}",
+                                                        batch.queue, ctx.point.k, ctx.point.b, ctx.class.name()),
+                                                    "batch-not-atomic-after-damage-then-crash",
+                                                    json!({"damages": damage_list, "second_stage": true}),
+                                                ));
+                                            }
+                                        }
+                                        Ok(())
+                                    })?;
+                                    env.scratch.remove(&crash_dir2);
+                                }
+                            }
+                        } else {
+                            recovered.driver.close()?;
+                        }
                         recovered.state
                     }
                     Err(err) => {
